@@ -58,6 +58,13 @@ CANARIES = [
     ("op-null-on-numpy-base", "c_op", "tensor_base.py", "                if base is None:\n                    # non-view ops clear grads", "                if op_out_base is None:\n                    # non-view ops clear grads", r"C07\.null\.operand"),
     ("op-no-release-on-failure", "c_op", "tensor_base.py", "                _mem.release_writeability_lock_on_op(_uniques_bases_then_arrs)\n            raise e", "                pass\n            raise e", r"C08\.op\.failed_op_releases"),
     ("op-swallow-exception", "c_op", "tensor_base.py", "                _mem.release_writeability_lock_on_op(_uniques_bases_then_arrs)\n            raise e", "                _mem.release_writeability_lock_on_op(_uniques_bases_then_arrs)\n            raise", None),
+    ("waitloop-busy-view-released", "c08_locks", "_utils/lock_management.py", "            if _array_counter[view_arr_id] > 0:\n                # view involved in new op\n                continue\n", "", r"C08\.release\.iteration\.view_in_use_keeps_waiting"),
+    ("waitloop-not-removed", "c08_locks", "_utils/lock_management.py", "            _views_waiting_for_unlock[arr_id].remove(view_arr_id)\n", "", r"C08\.release\.iteration\.idle_view_leaves"),
+    ("waitloop-tracker-kept", "c08_locks", "_utils/lock_management.py", "                view_arr = _array_tracker.pop(view_arr_id)()", "                view_arr = _array_tracker[view_arr_id]()", r"C08\.release\.iteration\.idle_view_leaves"),
+    ("waitloop-flag-not-restored", "c08_locks", "_utils/lock_management.py", "                view_arr.flags.writeable = True\n", "                view_arr.flags.writeable = False\n", r"C08\.release\.iteration\.idle_live_view_made_writeable"),
+    ("waitloop-busy-test-inverted", "c08_locks", "_utils/lock_management.py", "            if _array_counter[view_arr_id] > 0:\n", "            if _array_counter[view_arr_id] >= 0:\n", r"C08\.release\.iteration\.(idle_view_leaves|idle_live)"),
+    ("op-no-release-on-refused-result", "c_op", "tensor_base.py", "            if _mem.MEM_GUARD:\n                _mem.release_writeability_lock_on_op(_uniques_bases_then_arrs)\n            raise e", "            raise e", r"C08\.op\.failed_op_releases.*refused_result"),
+    ("seed-cast-skipped-for-float-seeds", "c14_seed", "tensor_base.py", "            _grad = asarray(grad, dtype=self.dtype)\n", "            _grad = asarray(grad)\n            if _grad.size <= 1 or _grad.dtype.kind != \"f\":\n                _grad = asarray(grad, dtype=self.dtype)\n", r"I1\.dtype"),
     ("op-base-of-parent-var", "c_op", "tensor_base.py", "base = parent_var if parent_var.base is None else parent_var.base", "base = parent_var", r"C04\.base\.result_base"),
     ("op-drop-shared-base-disjunct", "c_op", "tensor_base.py", "                    or (op_out_base is parent_data_base)\n", "", r"C04\.base\.(result_base|view_children)"),
     ("op-forget-view-child", "c_op", "tensor_base.py", "        if parent_var is not None:\n            parent_var._view_children.append(tensor_out)\n", "", r"C04\.base\.view_children"),
@@ -148,7 +155,8 @@ CANARIES = [
     ("getter-replay-with-tracking", "c06_getter", "tensor_base.py", "        with _track.no_autodiff:\n            self._view_grad = self._replay_op(grad).data if grad is not None else None", "        if True:\n            self._view_grad = self._replay_op(grad).data if grad is not None else None", r"C06\.getter\.view\.replayed_without_graph_tracking"),
     ("getter-not-cached", "c06_getter", "tensor_base.py", "            self._view_grad = self._replay_op(grad).data if grad is not None else None\n        return self._view_grad", "            vg = self._replay_op(grad).data if grad is not None else None\n        return vg", r"C06\.getter\.view\.result_is_replayed_data_and_cached"),
     ("getter-window-onto-own-grad", "c06_getter", "tensor_base.py", "        grad = view_parent.grad\n", "        grad = view_parent._grad\n", r"C06\.getter\.view\.(replay_on_parents_gradient|window_onto)"),
-    ("getter-owner-returns-cache", "c06_getter", "tensor_base.py", "        if self._base is None:\n            return self._grad\n\n        if (", "        if self._base is None:\n            return self._view_grad\n\n        if (", r"C06\.getter\.owner\.returns_own_grad"),
+    ("getter-owner-returns-cache", "c06_getter", "tensor_base.py", "            # a constant view does not take part in its base's gradient either\n            return self._grad\n", "            # a constant view does not take part in its base's gradient either\n            return self._view_grad\n", r"C06\.getter\.owner\.returns_own_grad"),
+    ("getter-cache-test-against-buffer-owner", "c06_getter", "tensor_base.py", "            and self._view_grad.base is self._base._grad\n", "            and self._view_grad.base is (self._base._grad if self._base._grad.base is None else self._base._grad.base)\n", r"C06\.getter\.view\.is_the_corresponding_window"),
     # ---- lock-set helpers (c08_sets) -----------------------------------------------------------------------------------------------
     ("unique-base-after-view", "c08_sets", "_utils/lock_management.py", "            if arr.base is not None:\n                base_id = id(arr.base)\n                if base_id not in seen:\n                    seen.add(base_id)\n                    yield arr.base\n            seen.add(arr_id)\n            yield arr", "            seen.add(arr_id)\n            yield arr\n            if arr.base is not None:\n                base_id = id(arr.base)\n                if base_id not in seen:\n                    seen.add(base_id)\n                    yield arr.base", r"C08\.unique.*base_before_its_views"),
     ("unique-base-not-marked-seen", "c08_sets", "_utils/lock_management.py", "                if base_id not in seen:\n                    seen.add(base_id)\n                    yield arr.base", "                if base_id not in seen:\n                    yield arr.base", r"C08\.unique.*exactly_once"),
